@@ -397,7 +397,3 @@ pub fn gen_sched(rng: &mut Rng, l: &Layout, maxlen: usize) -> Option<Case> {
     let init = Op::Init { slot: 0, raw: Hex(biased_bits(rng, l.bits)) };
     Some(Case { shape: Shape::Sched, nslots: 1, ops: vec![], sched: Some(Sched { init, writers, a, b, disjoint }) })
 }
-
-pub fn _mask(w: u32) -> u128 {
-    mask(w)
-}
